@@ -1,0 +1,12 @@
+//go:build verif
+
+package verifhook
+
+import "github.com/vulcand/oxy/v2/internal/holsterv4/collections"
+
+// TTLMap gives the external verification harness access to the internal TTL map
+// that the rate limiter keeps its bucket sets in.
+type TTLMap = collections.TTLMap
+
+// NewTTLMap creates a TTL map with the given capacity.
+func NewTTLMap(capacity int) *TTLMap { return collections.NewTTLMap(capacity) }
